@@ -78,6 +78,17 @@ Section C10.
     enabled st (CloseSub s) /\
     (s_phase (subs st s) = Closing -> enabled st (FinishClose s) \/ exists p, enabled st (Drop p s)).
   Proof. intros Hs. split; [apply close_enabled | apply closing_progress]; auto. Qed.
+  (* Close from inside a callback: after [Timeout p s] (OnTimeout runs) the environment may issue [CloseSub s]
+     at once - the callback calling sub.Close() or pub.Close().  The delivery (p,s) has left its select, so it is
+     not among the goroutines the closer waits for; if no other delivery of s is in its select the close
+     finishes immediately, otherwise C10_no_deadlock applies.  (OnFiltered runs inside Visit, outside any
+     select: the same holds trivially.) *)
+  Theorem C10_close_from_callback (st st1 st2 : state) p s :
+    reach st -> step st (Timeout p s) = Some st1 -> step st1 (CloseSub s) = Some st2 ->
+    is_insel (pair st2 p s) = false /\
+    (s_inmap (subs st1 s) = true -> (forall q, q <> p -> is_insel (pair st q s) = false) ->
+     enabled st2 (FinishClose s)).
+  Proof. apply close_from_callback. Qed.
 End C10.
 
 (* ---------- non-vacuity ---------- *)
@@ -105,3 +116,4 @@ Print Assumptions C10_closed_once.
 Print Assumptions C10_buffer_kept_nothing_after.
 Print Assumptions C10_others_untouched.
 Print Assumptions C10_no_deadlock.
+Print Assumptions C10_close_from_callback.
